@@ -204,4 +204,19 @@ CHECKS["C07"] = dict(
              "assumptions); sizes bounded by the tier; AVX-512 kernels run because this CPU has AVX-512.",
 )
 
+CHECKS["C15"] = dict(
+        src="checks/c15.cpp", cfg="rel", link="shared", engine="B-hidden-state-explorer",
+        category="model_checking", design_ref="DESIGN.md section 2 (Engine B) and section 4, C15",
+        technique="explicit-state exploration of the real library's hidden state (static segment, TLS, own heap) with fork checkpoints; outputs compared with the initial state and with fresh explicit tables on every transition",
+        text="The library's hidden state - its writable static segment, its thread-local block and the heap blocks it owns, canonicalised - is "
+             "explored explicitly under an alphabet of real calls: every *_simple function in two dimensions (below and above its dispatch "
+             "threshold) and two values of every parameter its cache must distinguish (divisor, log2 bound/overhead), every module-level entry "
+             "point on FFT64 and NTT120 modules, and table-based kernels. Each function family is searched to its fixed point and all "
+             "cross-family sequences up to depth 2 (quick) / 3 (thorough) are executed; on every transition the outputs must be bit-identical to "
+             "the outputs of the same call in the initial state and to the same operation through freshly built explicit tables. In addition "
+             "every entry-point and kernel case is run 8 times with rotating buffer offsets 0..56 and three prefills of outputs and scratch.",
+        note="Depth-bounded across families (state equality prunes re-expansion); the state is what the process image shows (no CPU control "
+             "registers); inputs of each op are fixed deterministic vectors.",
+)
+
 NOT_YET = {}
